@@ -66,6 +66,24 @@ Definition lift (s : st) (t : tid) (kd : call_kind) (r : result) : st * res :=
       (ghost_app (enq s) (g_enq g)),
    match res_of o with Some x => x | None => RRejected end).
 
+(* acquire() entered while a cancelled scope is visible (loc_entry_cancelled): the only outcome inside the model is
+   OCancelled at the check, i.e. the check neither returned nor let anything of the call run - it yields (phase
+   CkYield); the heap the interpretation returns is taken over, so an effect before the check would show.
+   What happens to the task in that yield is the kernel / scope machine (C03): Cancel, Resume from the model.
+   When the check RETURNS after the yield (CkPass: the cancelled scope was cut off meanwhile, fix F46) the call
+   continues after the check.  The translator accepts `await checkpoint_if_cancelled()` only as the FIRST statement
+   of acquire() (SemGenEq.tie_acquire_check_first), so "after the check" is the whole entry segment run with a
+   live check (a no-op): the same interpretation as for AcqBegin, on the heap as it is at that moment. *)
+Definition lift_ck (s : st) (t : tid) (r : result) : st * res :=
+  let '(l, g, k, o) := r in
+  match o with
+  | OCancelled =>
+      (mk (h_fast k) (h_maxv k) (h_value k) (h_waiters k) (h_futs k) (h_nfut k) (upd (phase_of s) t CkYield)
+          (mustc s) (init0 s) (held s) (g_woke g ++ infl s) (extra s) (dropped s) (ghost_app (enq s) (g_enq g)),
+       RBlocked)
+  | _ => (s, RRejected)
+  end.
+
 (* Which segment runs is CPython's await semantics (as in LockImp.gstep); `leave` is the kernel side of a wake-up
    (phase Idle, _must_cancel consumed, the reservation ends); Cancel is asyncio's Task.cancel(), from the model. *)
 Definition gstep (P : prog) (s : st) (o : op) : st * res :=
@@ -80,9 +98,21 @@ Definition gstep (P : prog) (s : st) (o : op) : st * res :=
       if negb (is_idle (phase_of s t)) then (s, RRejected) else
       lift s t KRelease (exec (p_release P) t (loc_entry None None) log0 (core s))
   | Cancel t => step s (Cancel t)
+  | AcqBeginC t =>
+      if negb (is_idle (phase_of s t)) then (s, RRejected) else
+      lift_ck s t (exec (p_acquire_entry P) t (loc_entry_cancelled None) log0 (core s))
+  | CkPass t =>
+      match phase_of s t with
+      | CkYield =>
+          let s1 := leave s t in
+          if mustc s t then (s1, RCancelled)      (* the pending Task.cancel() is thrown at the sleep(0) *)
+          else lift s1 t KAcquire (exec (p_acquire_entry P) t (loc_entry None None) log0 (core s1))
+      | _ => (s, RRejected)
+      end
   | Resume t =>
       match phase_of s t with
       | Idle => (s, RRejected)
+      | CkYield => step s (Resume t)               (* kernel: delivered cancellation raised, or the check spins *)
       | FastYield =>
           let s1 := leave s t in
           if mustc s t
